@@ -157,3 +157,198 @@ Proof.
   destruct (iteration_begins_with_nothing_in_flight _ _ _ _ _ _ _ R1 H) as (_ & _ & _ & _ & Eq & _ & _).
   destruct (iteration_covers_every_bar _ _ _ _ _ _ _ R1 H x L1) as [I|[I|I]]; auto. rewrite Eq in I. contradiction.
 Qed.
+
+(* ---------- the frame after which the container ends shows exactly the bars that are left (C03, C05, C14) ---------- *)
+(* the width-sync matrices and the ordered iteration of a cycle are built from the same heap: between a cycle's sync request
+   and its iteration request nothing touches the heap *)
+Definition MatIter (s : cst) : Prop :=
+  (fifo s = [QIter] -> forall x, cnt x (matrix s) = cnt x (heap s)) /\
+  (fifo s <> [QIter] -> forall x, cnt x (matrix s) = cnt x (iter_heap s)).
+
+Lemma MatIter_init p a d : MatIter (init_cst p a d).
+Proof. split; cbn; intros; try discriminate; reflexivity. Qed.
+
+Lemma qiter_only_after_sync s q rest : QShape s -> fifo s = q :: rest -> q = QIter -> rest = [].
+Proof.
+  intros Q F ->. unfold QShape in Q. destruct (rendering s).
+  - destruct Q as [(pre & P & E)|[E|E]]; rewrite F in E.
+    + destruct pre as [|q0 pre]; cbn in E; inversion E; subst. cbn in P. discriminate.
+    + inversion E; reflexivity.
+    + discriminate.
+  - rewrite F in Q. cbn in Q. discriminate.
+Qed.
+
+Lemma plain_no_iter l : forallb plain l = true -> l <> [QIter].
+Proof. intros P E. rewrite E in P. cbn in P. discriminate. Qed.
+
+Lemma idle_plain s : QShape s -> rendering s = false -> forallb plain (fifo s) = true.
+Proof. unfold QShape. intros Q R. rewrite R in Q. exact Q. Qed.
+
+(* behind a plain request (a push or an operation) the queue is never just the iter request: sync and iter are sent together *)
+Lemma tail_not_qiter s q rest : QShape s -> fifo s = q :: rest -> plain q = true -> rest <> [QIter].
+Proof.
+  intros Q F P E. subst rest. unfold QShape in Q. rewrite F in Q. destruct (rendering s).
+  - destruct Q as [(pre & Pp & E)|[E|E]]; try discriminate.
+    destruct pre as [|q0 pre]; cbn in E; inversion E; subst; [cbn in P; discriminate|].
+    destruct pre as [|q1 pre]; cbn in *; try discriminate. destruct pre; discriminate.
+  - cbn in Q. rewrite P in Q. cbn in Q. discriminate.
+Qed.
+
+Lemma MatIter_keep s s' :
+  matrix s' = matrix s -> heap s' = heap s -> iter_heap s' = iter_heap s -> fifo s' <> [QIter] -> fifo s <> [QIter] ->
+  MatIter s -> MatIter s'.
+Proof. unfold MatIter. intros Em Eh Ei N' N [M1 M2]. rewrite Em, Eh, Ei. split; [intros E; contradiction|intros _; exact (M2 N)]. Qed.
+
+Lemma step_MatIter p a d evs s e s' :
+  run (init_cst p a d) evs = Some s -> step s e = Some s' -> MatIter s -> MatIter s'.
+Proof.
+  intros R H M. pose proof M as [M1 M2].
+  destruct (reachable_PInv _ _ _ _ _ R) as [[U K Q C S] F].
+  assert (Q' : QShape s') by (eapply step_QShape; eauto).
+  destruct e; try (unfold MatIter; break_step H; use_fifo_pop; simp_state; (split; [exact M1|exact M2])).
+  - (* CT_OP: the container is idle, every queued request is a plain one, before and after *)
+    assert (Ri : rendering s = false /\ rendering s' = false).
+    { break_step H; simp_state; prep; unfold rendering; simp_state;
+        repeat match goal with Hi : ph _ = Idle |- _ => rewrite Hi end; auto. }
+    destruct Ri as [R0 R1].
+    apply (MatIter_keep s s'); try (break_step H; simp_state; reflexivity);
+      [apply plain_no_iter, idle_plain; assumption|apply plain_no_iter, idle_plain; assumption|exact M].
+  - (* CT_ADD: likewise *)
+    assert (Ri : rendering s = false /\ rendering s' = false).
+    { break_step H; simp_state; prep; unfold rendering; simp_state;
+        repeat match goal with Hi : ph _ = Idle |- _ => rewrite Hi end; auto. }
+    destruct Ri as [R0 R1].
+    apply (MatIter_keep s s'); try (break_step H; simp_state; reflexivity);
+      [apply plain_no_iter, idle_plain; assumption|apply plain_no_iter, idle_plain; assumption|exact M].
+  - (* CT_RENDERBEGIN *)
+    assert (R0 : rendering s = false).
+    { break_step H; prep; unfold rendering; repeat match goal with Hi : ph _ = Idle |- _ => rewrite Hi end; auto. }
+    apply (MatIter_keep s s'); try (break_step H; simp_state; reflexivity);
+      [|apply plain_no_iter, idle_plain; assumption|exact M].
+    break_step H; simp_state. intros E. destruct (fifo s) as [|q0 [|q1 l]]; cbn in E; discriminate.
+  - (* CT_FLUSHBAR: pushes are sent from flush only once the iteration is over and the queue is empty *)
+    assert (Hf : fifo s' = fifo s \/ (fifo s = [] /\ exists pu, fifo s' = map (fun p : Z * bool => QPush (fst p) (snd p)) pu)).
+    { break_step H; simp_state; repeat match goal with |- context [if ?c then _ else _] => destruct c eqn:? end; simp_state; auto.
+      all: right; prep;
+        match goal with Hn : nil_b (fifo ?s0) = true |- _ => apply nil_b_true in Hn; rewrite Hn; cbn [app]; split; [reflexivity|eexists; reflexivity] end. }
+    assert (Hm : matrix s' = matrix s /\ heap s' = heap s /\ iter_heap s' = iter_heap s).
+    { break_step H; simp_state; repeat match goal with |- context [if ?c then _ else _] => destruct c end; simp_state; auto. }
+    destruct Hm as (Em & Eh & Ei).
+    destruct Hf as [Ef|(Ff & pu & Ef)].
+    + unfold MatIter. rewrite Em, Eh, Ei, Ef. exact M.
+    + apply (MatIter_keep s s'); auto; [rewrite Ef; apply plain_no_iter, forallb_plain_pushes|rewrite Ff; discriminate].
+  - (* CT_FRAME *)
+    assert (Ff : fifo s = []) by (break_step H; prep; match goal with Hn : nil_b (fifo s) = true |- _ => apply nil_b_true in Hn; exact Hn end).
+    apply (MatIter_keep s s'); try (break_step H; simp_state; reflexivity); [|rewrite Ff; discriminate|exact M].
+    break_step H; simp_state; rewrite Ff; cbn [app]; apply plain_no_iter, forallb_plain_pushes.
+  - (* HM_PUSH: the heap grows; the queue behind the push is not the bare iter request *)
+    assert (Hf : exists q rest, fifo s = q :: rest /\ plain q = true /\ fifo s' = rest /\ matrix s' = matrix s /\ iter_heap s' = iter_heap s).
+    { break_step H; use_fifo_pop; simp_state. do 2 eexists. repeat split; try eassumption.
+      match goal with Hw : is_push _ _ ?q = true |- _ => apply is_push_spec in Hw; subst q; reflexivity end. }
+    destruct Hf as (q & rest & Ff & Pq & Ef & Em & Ei).
+    split; [intros E; exfalso; rewrite Ef in E; exact (tail_not_qiter s q rest Q Ff Pq E)|].
+    intros _. rewrite Em, Ei. apply M2. rewrite Ff. intros E; inversion E; subst; discriminate.
+  - (* HM_SYNC *)
+    pose proof (matrix_fresh_after_sync _ _ _ _ _ _ _ _ _ R H) as Fr.
+    split; [intros _; exact Fr|].
+    intros NE. exfalso. apply NE. break_step H; use_fifo_pop; simp_state.
+    all: match goal with Hw : is_q 0 ?q = true |- _ => destruct q; cbn in Hw; try discriminate Hw end.
+    all: match goal with Hf : fifo ?s0 = QSync :: ?rest |- _ => destruct (qsync_head s0 rest Q Hf) as [-> _]; reflexivity end.
+  - (* HM_ITERREQ *)
+    destruct haspop.
+    + destruct (iteration_begins_with_nothing_in_flight _ _ _ _ _ _ _ R H) as (Ff & _ & _ & Ih & _).
+      assert (Hm : matrix s' = matrix s /\ heap s' = heap s /\ fifo s = [QIter]).
+      { break_step H; use_fifo_pop; simp_state.
+        match goal with Hw : is_q 1 ?q = true |- _ => destruct q; cbn in Hw; try discriminate Hw end.
+        match goal with Hf : fifo ?s0 = QIter :: ?rest |- _ => rewrite (qiter_only_after_sync s0 QIter rest Q Hf eq_refl) in Hf; auto end. }
+      destruct Hm as (Em & Eh & Fs). split; [rewrite Ff; discriminate|]. intros _. rewrite Ih, Em, Eh. exact (M1 Fs).
+    + assert (Hf : exists q rest, fifo s = q :: rest /\ plain q = true /\ fifo s' = rest /\ matrix s' = matrix s /\ heap s' = heap s /\ iter_heap s' = iter_heap s).
+      { break_step H; use_fifo_pop; simp_state. do 2 eexists. repeat split; try eassumption.
+        match goal with Hw : is_q 2 ?q = true |- _ => destruct q; cbn in Hw; try discriminate Hw; reflexivity end. }
+      destruct Hf as (q & rest & Ff & Pq & Ef & Em & Eh & Ei).
+      apply (MatIter_keep s s'); auto; [rewrite Ef; exact (tail_not_qiter s q rest Q Ff Pq)|rewrite Ff; intros E; inversion E; subst; discriminate].
+  - (* HM_FIX *)
+    assert (Hf : exists q rest, fifo s = q :: rest /\ plain q = true /\ fifo s' = rest /\ matrix s' = matrix s /\ heap s' = heap s /\ iter_heap s' = iter_heap s).
+    { break_step H; use_fifo_pop; simp_state; do 2 eexists; repeat split; try eassumption;
+        match goal with Hw : is_q 2 ?q = true |- _ => destruct q; cbn in Hw; try discriminate Hw; reflexivity end. }
+    destruct Hf as (q & rest & Ff & Pq & Ef & Em & Eh & Ei).
+    apply (MatIter_keep s s'); auto; [rewrite Ef; exact (tail_not_qiter s q rest Q Ff Pq)|rewrite Ff; intros E; inversion E; subst; discriminate].
+  - (* HM_POP: an iteration is running, the queue is empty *)
+    assert (Ff : fifo s = [] /\ fifo s' = [] /\ matrix s' = matrix s /\ iter_heap s' = iter_heap s).
+    { break_step H; prep; simp_state; match goal with Hi : iterating s = true |- _ => destruct (fl_iter s F Hi) as [X _]; auto end. }
+    destruct Ff as (Ff & Ff' & Em & Ei).
+    split; [rewrite Ff'; discriminate|]. intros _. rewrite Em, Ei. apply M2. rewrite Ff. discriminate.
+Qed.
+
+Theorem reachable_MatIter p a d evs s : run (init_cst p a d) evs = Some s -> MatIter s.
+Proof.
+  assert (G : forall evs0 s0, run (init_cst p a d) evs0 = Some s0 -> MatIter s0 -> run s0 evs = Some s -> MatIter s).
+  { induction evs as [|e evs IH]; intros evs0 s0 R0 M0; unfold run; cbn [fold_left_opt].
+    - intros E; inversion E; subst; exact M0.
+    - destruct (step s0 e) as [s1|] eqn:E; [|discriminate]. intros R1.
+      apply (IH (evs0 ++ [e]) s1); [eapply run_snoc; eauto|eapply step_MatIter; eauto|exact R1]. }
+  intros R. apply (G [] (init_cst p a d)); [reflexivity|apply MatIter_init|exact R].
+Qed.
+
+(* when the heap manager answers "nothing changed" to the shutdown loop's question — the only answer after which the container
+   ends — the bars in the heap are exactly the bars of the last frame's ordered iteration: no bar left or joined during the frame
+   that is now the last one on the screen *)
+Theorem last_frame_shows_the_final_set p a d evs s hl cs cl s' :
+  run (init_cst p a d) evs = Some s -> step s (HM_STATE hl cs cl) = Some s' -> state_answer s' = Some false ->
+  forall x, cnt x (heap s') = cnt x (iter_heap s').
+Proof.
+  intros R H A x. pose proof (reachable_Coh _ _ _ _ _ R) as [C1 C2 C3]. destruct (reachable_MatIter _ _ _ _ _ R) as [_ M2].
+  break_step H. prep. simp_state. cbn [state_answer] in A.
+  match goal with Hn : nil_b (fifo s) = true |- _ => apply nil_b_true in Hn; rename Hn into Ff end.
+  injection A as A. apply orb_false_iff in A as [Hs Hl]. apply negb_false_iff, Z.eqb_eq in Hl.
+  rewrite <- (M2 ltac:(rewrite Ff; discriminate) x).
+  apply cnt_length_eq.
+  - intros y. specialize (C1 Hs y). rewrite members_cnt in C1. lia.
+  - apply Nat2Z.inj. match goal with Hq : (hl =? _) = true |- _ => apply Z.eqb_eq in Hq end. congruence.
+Qed.
+
+(* from that answer until the heap manager is told to end nothing moves: the container goroutine only leaves its loop *)
+Definition AnsInv (s : cst) : Prop :=
+  state_answer s = Some false ->
+  (forall x, cnt x (heap s) = cnt x (iter_heap s)) /\ fifo s = [] /\ idle_ph s = true /\ iterating s = false /\ done_seen s = true.
+
+Lemma step_AnsInv p a d evs s e s' :
+  run (init_cst p a d) evs = Some s -> step s e = Some s' -> AnsInv s -> AnsInv s'.
+Proof.
+  intros R H I A.
+  destruct e; try (assert (A0 : state_answer s = Some false) by (break_step H; use_fifo_pop; simp_state; exact A);
+                   destruct (I A0) as (I1 & I2 & I3 & I4 & I5);
+                   break_step H; use_fifo_pop; simp_state; prep;
+                   try congruence; try (unfold idle_ph in I3; simp_state; match goal with Hp : ph _ = _ |- _ => rewrite Hp in I3; discriminate end);
+                   try (match goal with Hr : replace_last_op (fifo _) _ = Some _ |- _ => rewrite I2 in Hr; discriminate end);
+                   repeat split; assumption).
+  - (* CT_RENDERBEGIN: the answer is consumed *)
+    break_step H; simp_state. cbn [state_answer] in A. discriminate.
+  - (* HM_STATE: a fresh answer *)
+    pose proof (last_frame_shows_the_final_set _ _ _ _ _ _ _ _ _ R H A) as L.
+    break_step H; prep; simp_state. repeat split; try assumption.
+    + match goal with Hn : nil_b (fifo s) = true |- _ => apply nil_b_true in Hn; exact Hn end.
+Qed.
+
+Theorem reachable_AnsInv p a d evs s : run (init_cst p a d) evs = Some s -> AnsInv s.
+Proof.
+  assert (G : forall evs0 s0, run (init_cst p a d) evs0 = Some s0 -> AnsInv s0 -> run s0 evs = Some s -> AnsInv s).
+  { induction evs as [|e evs IH]; intros evs0 s0 R0 M0; unfold run; cbn [fold_left_opt].
+    - intros E; inversion E; subst; exact M0.
+    - destruct (step s0 e) as [s1|] eqn:E; [|discriminate]. intros R1.
+      apply (IH (evs0 ++ [e]) s1); [eapply run_snoc; eauto|eapply step_AnsInv; eauto|exact R1]. }
+  intros R. apply (G [] (init_cst p a d)); [reflexivity|intros A; cbn in A; discriminate|exact R].
+Qed.
+
+(* C03 / C05 / C14: the heap manager is never told to end after the answer "something changed" (the loop renders again first), and
+   when it is told to end after the answer "nothing changed", the bars left in the container — the ones the shutdown notifier lists —
+   are exactly the bars of the last frame's iteration *)
+Theorem container_ends_on_the_last_frames_set p a d evs s hl s' :
+  run (init_cst p a d) evs = Some s -> step s (HM_END hl) = Some s' ->
+  state_answer s <> Some true /\
+  (state_answer s = Some false -> forall x, cnt x (heap s') = cnt x (iter_heap s')).
+Proof.
+  intros R H. pose proof (reachable_AnsInv _ _ _ _ _ R) as I. split.
+  - intros A. break_step H. prep. rewrite A in *. cbn in *. discriminate.
+  - intros A x. destruct (I A) as (I1 & _). break_step H; simp_state. apply I1.
+Qed.
